@@ -228,7 +228,7 @@ impl Price {
     pub fn mid(&self) -> (r: N) { unimplemented!() }
 }
 
-//@struct crates/model/src/action/swap.rs :: struct ReassignedValues<T: Unsigned> :: long_token_delta_value, T, short_token_delta_value, T, token_in_price, token_out_price, long_pnl_factor_kind, short_pnl_factor_kind
+//@struct crates/model/src/action/swap.rs :: struct ReassignedValues<T: Unsigned> :: long_token_delta_value, short_token_delta_value, token_in_price, token_out_price, long_pnl_factor_kind, short_pnl_factor_kind
 pub struct ReassignedValues { pub long_token_delta_value: S, pub short_token_delta_value: S, pub token_in_price: Price, pub token_out_price: Price,
                               pub long_pnl_factor_kind: PnlFactorKind, pub short_pnl_factor_kind: PnlFactorKind }
 impl ReassignedValues {
